@@ -262,6 +262,8 @@ pub struct Run {
     pub cli: bool,
     /// the behaviour was cut short because the command line tool printed nothing after a successful call
     pub lost: bool,
+    /// every stored frame seen so far, as last seen
+    pub frame_by_id: HashMap<String, Value>,
     /// operations go through nu scripts using the commands xs gives to scripts (XSV_NU set); no API server
     pub nu: bool,
     pub tok_hash: HashMap<String, String>,
@@ -300,6 +302,7 @@ impl Run {
             http,
             cli: http && std::env::var("XSV_CLI").map(|s| !s.is_empty()).unwrap_or(false),
             lost: false,
+            frame_by_id: HashMap::new(),
             nu: std::env::var("XSV_NU").is_ok(),
             tok_hash: HashMap::new(),
         };
@@ -424,6 +427,9 @@ impl Run {
     fn abs_frame(&mut self, f: &Value) -> Value {
         let id = f["id"].as_str().unwrap_or("").to_string();
         let ctx = f["context_id"].as_str().unwrap_or("").to_string();
+        if f["topic"] != "xs.threshold" && f["topic"] != "xs.pulse" && f.get("ttl").is_some() {
+            self.frame_by_id.insert(id.clone(), f.clone());
+        }
         self.note_id(&id);
         self.note_id(&ctx);
         let topic_s = f["topic"].as_str().unwrap_or("");
@@ -901,6 +907,37 @@ impl Run {
         }
     }
 
+    /// C10 where the sampled histories do not reach: a failed write that is repeated, and concurrent writers of the same bytes
+    /// (Store::cas_insert / cas_insert_sync, the entry points of handler, command and generator output)
+    pub fn op_cas_hard(&mut self) {
+        if self.dead {
+            return;
+        }
+        if self.rng.gen_bool(0.5) {
+            let mut bytes = self.fam.contents.values().next().cloned().unwrap_or_default();
+            bytes.extend_from_slice(format!("-{}-{}", self.rng.gen::<u64>(), self.events.len()).as_bytes());
+            let entry = if self.rng.gen_bool(0.5) { "insert" } else { "insert_sync" };
+            let r = self.call(json!({"op": "cas_fault", "direct": true, "entry": entry,
+                "content": base64::prelude::BASE64_STANDARD.encode(&bytes)}));
+            if Self::failed(&r) {
+                return;
+            }
+            if r["second_ok"] == json!(true) {
+                self.events.push(json!({"e": "cas", "what": "a write that failed and was repeated: the reported hash reads back",
+                    "injected": r["first_failed"], "ok": r["readable"] == json!(true) && r["same"] == json!(true)}));
+            }
+        } else {
+            let size = [1usize << 20, 4 << 20, 6 << 20][self.rng.gen_range(0..3)];
+            let (seed, writers) = (self.rng.gen::<u64>(), self.rng.gen_range(2..5));
+            let r = self.call(json!({"op": "cas_race", "direct": true, "size": size, "seed": seed, "writers": writers}));
+            if Self::failed(&r) {
+                return;
+            }
+            self.events.push(json!({"e": "cas", "what": "concurrent writers of the same bytes: readable as soon as any of them returns",
+                "ok": r["readable"] == json!(true) && r["same"] == json!(true) && r["one_hash"] == json!(true)}));
+        }
+    }
+
     pub fn op_bad(&mut self, class: &str) {
         let resp = self.call(json!({"op": "bad", "class": class}));
         if Self::failed(&resp) {
@@ -1035,6 +1072,9 @@ impl Run {
     pub fn random_probes(&mut self, n: usize) {
         if self.rng.gen_range(0..4) == 0 {
             self.op_cas_probe();
+        }
+        if self.rng.gen_range(0..40) == 0 {
+            self.op_cas_hard();
         }
         if self.http && self.rng.gen_range(0..8) == 0 {
             self.op_follow_probe();
@@ -1192,10 +1232,14 @@ impl Run {
             "reimport" => {
                 // the identical frame again (as the store returns it now): must change nothing
                 let id = self.resolve(op["id"].as_i64().unwrap()).unwrap();
-                let r = self.call(json!({"op": "get", "id": id}));
-                if !Self::failed(&r) && !r["frame"].is_null() {
-                    let f = r["frame"].clone();
-                    self.op_import_concrete(&f, None);
+                // (a frame the store has dropped meanwhile - removed, expired and collected, evicted - comes back as it was
+                // last seen: under its old id, at its old place, with its old TTL)
+                let r = self.call(json!({"op": "get", "id": id, "direct": true}));
+                if !Self::failed(&r) {
+                    let f = if r["frame"].is_null() { self.frame_by_id.get(&id).cloned() } else { Some(r["frame"].clone()) };
+                    if let Some(f) = f {
+                        self.op_import_concrete(&f, None);
+                    }
                 }
             }
             "xfer" => self.op_xfer(),
